@@ -41,6 +41,8 @@ func HarnessC17Response() {
 	errCfg := vChoice("error-page", 4) // none, valid, missing file, page that itself fails
 	vfsWriteFile("templates/ok.tw", "ok {{ d }}!")
 	vfsWriteFile("templates/calc.tw", c17Page)
+	vfsWriteFile("templates/layouts/lay.tw", "HEADMARK [@reserve(\"r\")] TAILMARK")
+	vfsWriteFile("templates/ins.tw", "@use(\"~lay\")@insert(\"r\", o.missing)")
 	vfsWriteFile("templates/pct.tw", "HEADMARK {{ 7 % \"3\" }} TAILMARK") // the error message holds a '%' 
 	// the custom error page has a variable of its own; the failed page's data uses the same name with another type
 	vfsWriteFile("templates/err.tw", "{{ t = \"Custom\" }}{{ t }} oops")
@@ -69,7 +71,9 @@ func HarnessC17Response() {
 	var name string
 	var data map[string]any
 	d := string([]byte{vByte("d")})
-	switch vChoice("page", 5) {
+	switch vChoice("page", 6) {
+	case 5: // the value of an expression-form insert fails at run time
+		name, data = "ins", map[string]any{"o": map[string]any{"k": 1}}
 	case 4:
 		name, data = "pct", nil
 	case 0:
@@ -82,6 +86,9 @@ func HarnessC17Response() {
 		name, data = "absent", nil
 	}
 	want, wantErr := tpl.String(name, data)
+	if name == "ins" || name == "pct" || name == "absent" {
+		vAssert(wantErr != nil, "page-that-fails-by-construction-fails") // not derived from the code under test
+	}
 	w := &vWriter{}
 	err := tpl.Response(w, name, data)
 	body := string(w.buf)
